@@ -1,10 +1,10 @@
 #!/bin/bash
 # verify_seed.sh <ID>: in the scratch worktree /tmp/sv (detached at /repo main) confirm that the seeded
 # patch compiles, passes the 199 tests, and that its demonstration fails with it and passes without.
-id="$1"; slot="${2:-0}"; d=/verif/seeded/$id; W=/tmp/sv$slot; T=/tmp/sv$slot-target
+id="$1"; slot="${2:-0}"; sd="${3:-$1}"; src="${4:-/tmp/seed}"; d=/verif/seeded/$sd; W=/tmp/sv$slot; T=/tmp/sv$slot-target
 [ -d $W ] || git -C /repo worktree add -q --detach $W HEAD
 cd $W && git checkout -q --detach $(git -C /repo rev-parse HEAD) && git checkout -q -- . && git clean -fdq
-cmd=$(python3 -c "import json;print(json.load(open('$d/meta.json'))['demo_cmd'])" | sed "s#/tmp/seed/$id#$W#g; s#/tmp/seed/target-$id#$T#g; s#CARGO_TARGET_DIR=[^ ]*#CARGO_TARGET_DIR=$T#g")
+cmd=$(python3 -c "import json;print(json.load(open('$d/meta.json'))['demo_cmd'])" | sed "s#$src/$id#$W#g; s#$src/target-$id#$T#g; s#CARGO_TARGET_DIR=[^ ]*#CARGO_TARGET_DIR=$T#g")
 mkdir -p $W/seed $W/demo; cp -rf $d/demo* $W/seed/ 2>/dev/null; [ -d $d/demo_dir ] && cp -rf $d/demo_dir/* $W/demo/ 2>/dev/null
 failed() { [ "$1" != 0 ] || grep -qE "test result: FAILED|error: test failed|panicked at|VIOLAT" "$2"; }
 echo "== demo without patch"; ( eval "$cmd" ) > $W.demo_clean.log 2>&1; rc_clean=$?; failed $rc_clean $W.demo_clean.log && rc_clean=1 || rc_clean=0
